@@ -89,12 +89,13 @@ func connectPoolNoFail(ctx context.Context, config connPoolConfig) *connPool {
 	ctx, cancel := context.WithCancel(ctx)
 
 	pool := &connPool{
-		ctx:     ctx,
-		config:  config,
-		logger:  GetOrCreateNopLogger(config.Logger),
-		cancel:  cancel,
-		conns:   make([]*ClientConn, config.NumConns),
-		connsMu: &sync.RWMutex{},
+		ctx:           ctx,
+		config:        config,
+		logger:        GetOrCreateNopLogger(config.Logger),
+		preparedCache: config.PreparedCache,
+		cancel:        cancel,
+		conns:         make([]*ClientConn, config.NumConns),
+		connsMu:       &sync.RWMutex{},
 	}
 
 	for i := 0; i < config.NumConns; i++ {
